@@ -261,14 +261,16 @@ class ServerReceiving(Unit):
         ok = isinstance(item_u, PyTuple) and len(item_u.items) == 2
         t = unbox_handle(ex, item_u.items[1]) if ok else None
         if isinstance(t, Rec):
-            ex.oblige(st, f'line {node.lineno}: the shutdown request is queued under its own id', box(ex, item_u.items[0]) == self.rid(j))
+            ex.oblige(st, f'line {node.lineno}: the shutdown request is queued under its own id -- and ONLY a record addressed to the shutdown path is treated as one (every other record goes to its routed handler)',
+                      z3.And(box(ex, item_u.items[0]) == self.rid(j), self.path(j) == self.shutdown))
             return
+        ex.oblige(st, f'line {node.lineno}: a record addressed to the shutdown path is not dispatched to a handler', self.path(j) != self.shutdown)
         ex.oblige(st, f'line {node.lineno}: the k-th record of the connection is queued as the k-th (own id, task of the routed handler on its own payload): responses will be written in request order',
                   z3.And(z3.BoolVal(ok), k == j, box(ex, item_u.items[0]) == self.rid(j), box(ex, item_u.items[1]) == self.task(self.handle(self.path(j), self.payload(j)))) if ok else z3.BoolVal(False))
 
     @property
     def loops(self):
-        return {0: LoopSpec(inv=lambda s, ex: self.reqs.nput(s) == s.ghost['nrec'], keep=('loop',), keep_ghost=())}
+        return {0: LoopSpec(inv=lambda s, ex: z3.And(self.reqs.nput(s) == s.ghost['nrec'], box(ex, self.me.get(s, '_shutdown_path')) == self.shutdown), keep=('loop',), keep_ghost=())}
 
     def post(self, ex, outs):
         for k, s, p in outs:
@@ -567,6 +569,8 @@ class ClientEnqueue(Unit):
             if k in ('normal', 'return'):
                 futs = s.ghost['futs']
                 ex.oblige(s, 'exit: returns the future that was queued with the request, queued exactly once', z3.And(z3.BoolVal(len(futs) == 1 and unbox_handle(ex, p) is futs[0]), self.pending.nput(s) == 1))
+                ex.oblige(s, 'exit: a request is only accepted while the client is open (neither closing flag was seen set): once closing, the sender may already have left and the request would never be sent',
+                          z3.Not(z3.Or(*[v.get(s, 'flag') for v in ex.objs.values() if isinstance(v, Event)])))
             else:
                 ex.oblige(s, 'exit(raise): nothing was queued', self.pending.nput(s) == 0)
                 # a started, open client accepts the request: it is refused only before the client is started, once it is closing, or when the pending queue stayed full for the caller's timeout
